@@ -40,8 +40,7 @@ def runReduceOp (op : String) (attrs : Json) (ins : List (Option DT)) : Answer :
           | some t => { domain := "must", outs := some [some (DT.mk .i64 t none)] }
           | none => { domain := "mayRefuse" },
         guard := if sp.isNone then ["argmax.axis_out_of_range"]
-                 else (if keep then ["argmax.keepdims_mutates_input"] else []) ++
-                      (if !keep && X.t.rank == 1 then ["argmax.rank1_no_keepdims"] else []) }
+                 else (if !keep && X.t.rank == 1 then ["argmax.rank1_no_keepdims"] else []) }
   | "ReduceMax", [some X] | "ReduceMin", [some X] =>
     let names := attrNames attrs
     let isMax := op == "ReduceMax"
